@@ -80,7 +80,7 @@ def check_valid_case(case, acc):
     acc.case((case['shape'], case['enc'], case['blocked'], case['blocks']), nontrivial=True,
              outcome='%s/%d blocks' % ('1014' if case['blocked'] else 'vbs', case['blocks']))
     try:
-        info = mciipm.ipm_info(io.BytesIO(data))
+        info = _info(mciipm, data)
     except Exception as ex:
         acc.viol('c17.exception', case, repr(ex), 'info dict')
         return
@@ -144,7 +144,7 @@ def check_probe_case(case, acc):
             raise core.Broken('probe file layout is not what the generator intended: %r' % got)
     acc.case(('probe', enc, tuple(case['b'])), nontrivial=True, outcome='probe')
     try:
-        info = mciipm.ipm_info(io.BytesIO(data))
+        info = _info(mciipm, data)
     except Exception as ex:
         acc.viol('c17.exception', case, repr(ex), 'info dict')
         return
@@ -154,6 +154,20 @@ def check_probe_case(case, acc):
     if not (case['b'][0] and case['b'][1]) and info.get('isBlocked') is not False:
         acc.viol('c17.unblocked.reported_blocked', case, repr(info.get('isBlocked')), 'isBlocked False',
                  'unblocked file with bytes 1012-1013 = %02x %02x, 2026-2027 = %02x %02x' % tuple(got))
+
+
+def _info(mciipm, data):
+    """ipm_info on a file object whose KIND is chosen by the data (so that a replay makes the same choice):
+    in-memory, real file, non-seekable stream, object with nothing but read()"""
+    from vf import fileobjs
+    kind = fileobjs.READ_KINDS[(len(data) + (data[5] if len(data) > 5 else 0)) % 4]
+    if len(data) > 100000 and kind == 'file':
+        kind = 'pipe'
+    fo, done = fileobjs.reader(kind, data)
+    try:
+        return mciipm.ipm_info(fo)
+    finally:
+        done()
 
 
 def check_config_sequence(case, acc):
@@ -197,7 +211,7 @@ def check_config_sequence(case, acc):
                 needs = {'de7': '7', 'de26': '26', 'de3': '3'}[name]
                 want_valid = needs in live
                 try:
-                    info = mciipm.ipm_info(io.BytesIO(files[name]))
+                    info = _info(mciipm, files[name])
                 except Exception as ex:
                     acc.viol('c17.cfgseq.exception', case, repr(ex), 'info dict')
                     return
@@ -256,7 +270,7 @@ def check_invalid_case(case, acc):
             bm[(bit - 1) // 8] |= 0x80 >> ((bit - 1) % 8)
             data = struct.pack('>I', 60) + b'1240' + bytes(bm) + b'x' * 60
         try:
-            info = mciipm.ipm_info(io.BytesIO(data))
+            info = _info(mciipm, data)
         except Exception as ex:
             acc.viol('c17.exception', case, repr(ex), 'info dict')
             return
